@@ -137,3 +137,12 @@ def classes(r):
 
 def nontrivial(r):
     return any(c.startswith("failing-pos:") for c in classes(r))
+
+
+# ---- asyncio share ("in both front ends")
+from .. import aiomix  # noqa: E402
+from . import c17 as _c17  # noqa: E402
+
+aiomix.install(globals(), 0.25, lambda rng: aiomix.stream(rng, _c17.scenarios, tweak=lambda rng_, s: dict(s, _no_solo=True)), aiomix.c10_specs,
+               aio_runner=aiomix.c10_runner,
+               note="C17-style job lives with raising runs (20%), each also run fault-free; Spec: no supervising task dies, failed_attempts = raising runs, attempts = completed runs, one ERROR record per failure, the two runs agree on everything else")
